@@ -26,7 +26,8 @@ func (b Branch) Target(ctx context.Context, height int) (*big.Int, error) {
 		return nil, errors.Wrap(err, "first header stats")
 	}
 
-	timeSpan := lastTime - firstTime
+	// The time span is signed. Timestamps are not required to be in order.
+	timeSpan := int64(lastTime) - int64(firstTime)
 
 	// Apply time span limits
 	if timeSpan < 72*600 {
@@ -43,7 +44,7 @@ func (b Branch) Target(ctx context.Context, height int) (*big.Int, error) {
 	// Projected Work (PW) = (W * 600) / TS.
 	projected := &big.Int{}
 	projected.Mul(work, big.NewInt(600))
-	projected.Div(projected, big.NewInt(int64(timeSpan)))
+	projected.Div(projected, big.NewInt(timeSpan))
 
 	if projected.Sign() <= 0 {
 		return nil, errors.New("No projected work")
